@@ -166,6 +166,9 @@ def extra_run(man, tier, seed, only=None, nper=None):
             if f['setters'] and not re.search(rf'theorem {tname}_sound\b', src):
                 obligations.append({'name': f'coverage:{tname}_sound', 'kind': 'coverage', 'ok': False, 'site': tname,
                                     'detail': 'type with caches and setters has no soundness theorem in Props/C09A.lean'})
+        if f['caches'] and not re.search(rf'theorem {tname}_closed\b', src):
+            obligations.append({'name': f'coverage:{tname}_closed', 'kind': 'coverage', 'ok': False, 'site': tname,
+                                'detail': 'cache-holding type has no alphabet-closure theorem (foreignCacheWrites = []) in Props/C09A.lean'})
     return {'obligations': obligations, 'failures': failures,
             'stats': {'evaluations': len(lines), 'distinct_nontrivial': len(set(lines)), 'queries_compared': nq,
                       'types': len(hist)},
